@@ -95,6 +95,10 @@ def expected_index_origins(app, model):
     return out
 
 
+def column_name_of(field):
+    return spec.column_name(field)
+
+
 def index_shadowed(app, model, cols):
     """True when the model spec declares two or more indexes over the same
     column list (ignoring ordering, uniqueness and conditions)."""
@@ -165,7 +169,7 @@ def fresh_snapshot(project, sts, version, apps=None):
         return snapshot.snapshot(ws), r
 
 
-def schema_diffs(snap, fresh, state, apps):
+def schema_diffs(snap, fresh, state, apps, state_before=None):
     """Structured differences between an evolved database and the fresh
     schema for the tables of the given apps."""
     out = []
@@ -194,6 +198,27 @@ def schema_diffs(snap, fresh, state, apps):
                 rec['origin'] = index_origin(a, m, d[1], d[2],
                                              extra=d[0] == 'index_extra')
                 rec['shadowed'] = index_shadowed(a, m, d[1])
+                # a column with a CHECK of its own (PositiveIntegerField):
+                # sqlite introspection reports the CHECK as a constraint
+                # over that column
+                plain = [c.replace(' DESC', '') for c in d[1]]
+                checked = set()
+                for fld in m['fields']:
+                    if fld['kind'] == 'PositiveInteger':
+                        checked.add(spec.column_name(fld))
+                colof = {fld['name']: spec.column_name(fld)
+                         for fld in m['fields']
+                         if fld['kind'] != 'ManyToMany'}
+                for c in (m.get('meta') or {}).get('constraints') or []:
+                    if c['kind'] == 'check':
+                        for n in spec.q_fields(c['check']):
+                            if n in colof:
+                                checked.add(colof[n])
+                rec['on_check_column'] = any(c in checked for c in plain)
+                kinds = [fld['kind'] for fld in m['fields']
+                         if fld['kind'] != 'ManyToMany'
+                         and spec.column_name(fld) in plain]
+                rec['field_kinds'] = sorted(set(kinds))
             elif d[0] in ('check_missing', 'check_extra'):
                 rec['origin'] = ('column_check' if re.match(
                     r'^\w+ >= 0$', d[1] or '') else 'constraints')
@@ -202,6 +227,39 @@ def schema_diffs(snap, fresh, state, apps):
                 rec['origin'] = 'indexes' if any(
                     ix.get('name') == d[1]
                     for ix in meta.get('indexes') or []) else 'constraints'
+                for (cs, u, o) in expected_index_origins(a, m):
+                    pass
+                colmap = {fld['name']: column_name_of(fld)
+                          for fld in m['fields']
+                          if fld['kind'] != 'ManyToMany'}
+                colmap['id'] = 'id'
+                for ix in (meta.get('indexes') or []):
+                    if ix.get('name') == d[1] and ix.get('fields'):
+                        cols = [colmap.get(n.lstrip('-'), n.lstrip('-'))
+                                for n in ix['fields']]
+                        rec['shadowed'] = index_shadowed(a, m, cols)
+                for c in (meta.get('constraints') or []):
+                    if c.get('name') == d[1] and c.get('fields'):
+                        cols = [colmap.get(n, n) for n in c['fields']]
+                        rec['shadowed'] = index_shadowed(a, m, cols)
+            if state_before is not None and rec.get('shadowed') is False:
+                # also shadowed when the model had two indexes over these
+                # columns before the evolution
+                a0, m0, f0 = model_by_table(state_before, t)
+                if m0 is not None and f0 is None:
+                    cols0 = None
+                    if d[0] in ('index_missing', 'index_extra'):
+                        cols0 = d[1]
+                    elif d[0] == 'named_object_missing':
+                        cm = {fld['name']: spec.column_name(fld)
+                              for fld in m0['fields']
+                              if fld['kind'] != 'ManyToMany'}
+                        for ix in (m0.get('meta') or {}).get('indexes') or []:
+                            if ix.get('name') == d[1] and ix.get('fields'):
+                                cols0 = [cm.get(n.lstrip('-'), n.lstrip('-'))
+                                         for n in ix['fields']]
+                    if cols0 and index_shadowed(a0, m0, cols0):
+                        rec['shadowed'] = True
             out.append(rec)
     return out
 
